@@ -67,6 +67,9 @@ type Contract struct {
 	// Implements: "Iface.Method" — the method is verified against that interface method's (otherwise assumed)
 	// contract as well: its requires are added to this contract's, its ensures become obligations
 	// (conform-<label>) and its modifies are added to the frame.
+	// ScopeEntry: postconditions are type-checked in the scope at the function's entry instead of its end (for
+	// functions in which a local variable shadows a name the clause needs, e.g. a local `core` hiding type core)
+	ScopeEntry bool
 	// NoRead: fields ("Type.field") the function's code must not read, directly or through helpers that are
 	// expanded in place: process-local state that a DAG-determined result must not depend on.
 	NoRead []string
@@ -109,7 +112,7 @@ type MemoDecl struct {
 	Line              string
 }
 
-var clauseKW = map[string]bool{"noread": true, "implements": true, "ghostset": true, "ints": true, "safety": true, "requires": true, "assume": true, "ensures": true, "aux": true, "modifies": true,
+var clauseKW = map[string]bool{"scope": true, "noread": true, "implements": true, "ghostset": true, "ints": true, "safety": true, "requires": true, "assume": true, "ensures": true, "aux": true, "modifies": true,
 	"loop": true, "call": true, "callback": true, "reveal": true, "opaque": true, "trusted": true, "inline": true, "pure": true, "float": true}
 
 var reHead = regexp.MustCompile(`^(requires|assume|ensures|aux|invariant|assert|decreases)(\[[^\]]+\])?\s*(.*)$`)
@@ -263,6 +266,8 @@ func parseClause(c *Contract, text, loc string) error {
 			return fmt.Errorf("%s: ints ideal|checked|wrap", loc)
 		}
 		c.IntMode = fields[1]
+	case "scope":
+		c.ScopeEntry = len(fields) == 2 && fields[1] == "entry"
 	case "noread":
 		for _, d := range splitTopLevel(strings.TrimSpace(strings.TrimPrefix(text, "noread")), ',') {
 			if d = strings.TrimSpace(d); d != "" {
